@@ -86,9 +86,9 @@ Lemma load_inv : forall W o x st spec0 range asset in_dyn root attr count,
 Proof.
   intros W o x st spec0 range asset in_dyn root attr count H. unfold load.
   set (s := load_target st spec0).
-  destruct (asset && N.eqb attr 9 && negb (mem s (w_wasm_ext W))).
+  destruct (sp_reject W s asset attr).
   { apply set_slot_nonpending_inv; [exact H | reflexivity]. }
-  destruct (asset && negb (N.eqb attr 0) && negb (N.eqb attr 9) && negb (attr_allowed o attr)).
+  destruct (attr_reject o asset attr).
   { apply set_slot_nonpending_inv; [exact H | reflexivity]. }
   assert (Hproceed : PendInv x
     match class_of W s with
@@ -153,7 +153,7 @@ Qed.
 Lemma visit_dep_inv : forall W o x st da st' d',
   PendInv x st -> visit_dep W o st da = (st', d') -> PendInv x st'.
 Proof.
-  intros W o x st [d asset] st' d' H Hv. unfold visit_dep in Hv. cbn [fst snd] in Hv.
+  intros W o x st [d [asset sp]] st' d' H Hv. unfold visit_dep in Hv. cbn [fst snd] in Hv.
   destruct (d_dyn d && bo_skip_dynamic o); [inversion Hv; subst; exact H|].
   inversion Hv; subst; clear Hv.
   set (st1 := if include_code (bo_kind o) || is_rnone (d_type d)
